@@ -258,7 +258,33 @@ def explore_state(F, w, v, res, idxs, values_for, small_frames, eq_states, packl
         if f.as_integer != v or g.as_integer != v2:
             add_violation(res, "C05:add-mutates", "operand changed by +", case)
         res["transitions"] += 1
+        # the augmented spelling, with the old object still referenced elsewhere: "after any sequence of ... concatenations a frame's length is unchanged"
+        h = mk()
+        alias = h
+        g = F(w2, v2)
+        case = dict(base, op="iadd", w2=w2, v2=v2)
+        h += g
+        if len(h) != w + w2 or h.as_integer != (v << w2) | v2:
+            add_violation(res, "C05:iadd", f"f = Frame({w},{v:#x}); f += Frame({w2},{v2:#x}) -> {len(h)},{h.as_integer:#x}", case)
+        if len(alias) != w or alias.as_integer != v or len(g) != w2 or g.as_integer != v2 or not _views(alias, w, v, F):
+            add_violation(res, "C05:iadd-mutates", f"f += g changed an existing frame object: the frame that was Frame({w},{v:#x}) is now "
+                          f"{len(alias)} bits, {alias.as_integer:#x} (right operand {len(g)} bits, {g.as_integer:#x})", case)
+        _inv(h, w + w2, res, case, "iadd")
+        h2 = mk()
+        keep = h2
+        h2 += h2
+        if len(keep) != w or keep.as_integer != v or len(h2) != 2 * w or h2.as_integer != (v << w) | v:
+            add_violation(res, "C05:iadd-mutates", f"f += f on Frame({w},{v:#x}): old object {len(keep)} bits {keep.as_integer:#x}, result {len(h2)} bits {h2.as_integer:#x}",
+                          dict(base, op="iadd-self"))
+        res["transitions"] += 2
     res["distinct"].add(("add", "ok"))
+    for bad in (1, "x", None, b"\x00", [1]):
+        hb = mk()
+
+        def wr7():
+            nonlocal hb
+            hb += bad
+        _expect_exc(res, wr7, TypeError, hb, w, v, "iadd-type", dict(base, op="iadd-type", other=repr(bad)))
     for bad in (1, "x", None, b"\x00", [1]):
         _expect_exc(res, lambda: f + bad, TypeError, f, w, v, "add-type", dict(base, op="add-type", other=repr(bad)))
     # ---- equality ---------------------------------------------------------------------
